@@ -32,11 +32,11 @@ TEXT = {
     "C04": ("Theorems: a representation relation Repr t v n (node n represents value v through ANY contents tree: zero "
             "summaries / expanded zeros in any mixture) with: C04_indistinguishable (every represented value of every type "
             "has the root, encoding and reported length of the freshly constructed value); constructor trees are "
-            "representations; container field assignment, vector element assignment, list element assignment and append "
-            "(composite elements) preserve representation, as single steps and as arbitrary valid histories over values, "
-            "composing through any nesting depth; tree-level set / expanding append for every kind (CRep). pop, packed "
-            "element writes, bit operations, union change: correspondence on histories (each step vs model and vs fresh "
-            "value).",
+            "representations; container field assignment, vector element assignment, list element assignment / append / pop "
+            "(composite elements; pop = clear + summarise the emptied subtree found by the climb over trailing zero bits) "
+            "and union change preserve representation, as single steps and as arbitrary valid histories over values, "
+            "composing through any nesting depth; tree-level set / expanding append / pop for every kind (CRep). Packed "
+            "element writes and bit operations: correspondence on histories (each step vs model and vs fresh value).",
             "Coq proof (CRep / Repr invariants, induction on depth, types and histories) + correspondence", "5 (C04)"),
     "C05": ("Theorems on the store-of-view-cells model (hooks as data): a write through a child view stores the new backing "
             "in the child and, through its hook, at the child's position in the parent; the parent then reads back exactly "
